@@ -11,15 +11,44 @@ from gen import grammar
 
 LEVEL_NOTE = [
     "C01_full (every program of the grammar of DESIGN §4.1 gets only Notices) is NOT proved: it needs every rule ported. Proved fragments (C01.verdict_ok, linelen_silent, token_col_le, and by import C13.accept, C11.int_valid): the verdict/exit plumbing, the 42 header, integer constants, the 80-column limit",
-    "decision per program: the acceptance oracle runs the real pipeline (and the real CLI for a sample) on generated conforming programs; the generator harness/gen/grammar.py follows §4.1 (13 constructs the tool rejects are listed in gen/grammar.py::REJECTED_CONSTRUCTS and excluded)",
+    "decision per program: the acceptance oracle runs the real pipeline (and the real CLI for a sample) on generated conforming programs; the generator harness/gen/grammar.py follows §4.1 (gen/grammar.py::REJECTED_CONSTRUCTS lists the constructs the tool refuses: 7 are corrections of the grammar, 6 are genuine defects recorded as known findings and replayed on every run; all are excluded from generation)",
 ]
 PARTIAL = [
     "C01_partial: operator/parenthesis spacing, pointer disambiguation, indentation and alignment of declarations/prototypes, user-type checks, argument names and the statement segmentation are not modelled; the oracle decides them per generated program (production coverage is reported in the evidence)",
 ]
 
 
+# constructs derivable from the §4.1 grammar that the tool rejects (genuine C01 defects, recorded
+# in known_findings.json and excluded from the generator): slug -> index in REJECTED_CONSTRUCTS.
+# The other entries of that list are corrections of the grammar, see DESIGN §4.1.
+KNOWN_REJECTED = {
+    "cast-before-char-constant": 0,
+    "unary-minus-before-char-constant": 1,
+    "bitwise-not-before-char-constant": 2,
+    "star-after-cast-of-parenthesised-expression": 5,
+    "star-after-group-ending-with-user-type-pointer": 6,
+    "braceless-body-that-is-an-if-else": 11,
+}
+
+
+def known_constructs(res):
+    """each listed construct is replayed on the real code; it is reported (and then recognised as
+    a known finding by its signature) only while the tool still rejects it"""
+    from impl import pipeline
+    from gen.header import header42
+    for slug, idx in KNOWN_REJECTED.items():
+        desc, body, expected = grammar.REJECTED_CONSTRUCTS[idx]
+        text = header42("x.c") + body
+        r = pipeline("x.c", text)
+        res.count("known-constructs", 1)
+        errs = [(d[0], d[3][0][0]) for d in r["diags"] if d[2] == "Error"] if r["outcome"] == "ok" else [(r["outcome"], 0)]
+        if errs:
+            res.report(f"conforming:{errs[0][0]}@{slug}", f"{desc}: {errs[:3]}", {"kind": "conforming", "name": "x.c", "src": text})
+
+
 def run(res, tier, br, model_ok=True, search=False):
     from impl import run_cli
+    known_constructs(res)
     rng = random.Random(res.seed + 137)
     big = tier == "thorough" or search
     n = 1500 if big else 150
